@@ -25,9 +25,9 @@ PROPS = {
              "delivered once / late / again / never, start-up replays, interval steps and assignment notifications with "
              "failing DE-count / member queries and crash points, partner signatures, MsgResetDE, batches of 1..3 queued "
              "messages landing as one transaction or dropped, blocks that expire attempts and retry). evaluations = trace "
-             "lines; a script is non-trivial if one of the daemon's shares landed on the real chain AND its trace has a "
-             "duplicated delivery, an injected failure, a crash, a retry or a refused transaction; distinct = SHA-256 of "
-             "the abstract script",
+             "lines; a script is non-trivial if the real chain assigned the daemon's member to at least one attempt AND its "
+             "trace has a duplicated delivery, an injected failure (query, sender), a crash, a retry or a MsgResetDE; "
+             "distinct = SHA-256 of the abstract script",
         assumptions=[
             "chain side = real BandApp, L1 handler layer; a trusted-dealer 3-member group (threshold 2) installed with keeper "
             "setters as the current bandtss group; tss params (MaxDESize, SigningPeriod, MaxSigningAttempt) and the bandtss "
